@@ -232,3 +232,12 @@ ENGINES["nested"] = ("snapshot() calls nested in the argument of another snapsho
                      "direct oracles only (no internal error / overlap, rewritten test passes with inline-snapshot disabled, second run is a no-op) — the nested call sites are stateful and outside the Lean model")
 PROPS["C14"]["rule"] += (" ; site engine: in 12% of the cases an unrelated comparison that raises (10 kinds: while aligning, inside dict values, ordering TypeError, failed deepcopy, nested snapshot, ...) "
                          "is evaluated at the start of one test; the modelled call sites must end exactly as without it")
+
+SEQEDIT_RULE = ("seeded generator (harness/engines/seqedit.py): one list / tuple / dict display or call with 0-5 elements (atoms, nested displays, parenthesised, multi-line, "
+                "keyword arguments, parenthesised dict keys), arbitrary trivia between them (blanks, tabs, line breaks, comments, optional trailing comma), a random subset deleted and "
+                "0-3 pieces of code inserted at random positions; the real apply_all is driven with hand-made Delete / ListInsert / DictInsert / CallArg changes")
+for _p in ("C03", "C11", "C02", "C18"):
+    PROPS[_p]["engines"].append(("seqedit", {"quick": 1500, "thorough": 40000}))
+    PROPS[_p]["rule"] += " ; plus " + SEQEDIT_RULE
+ENGINES["seqedit"] = ("apply_all / generic_sequence_update at the text level vs Model/SeqEdit.lean (seqUpdate): the text between the braces token by token; oracle: parses, holds exactly the "
+                      "kept and inserted elements, a tuple stays a tuple, kept elements verbatim")
